@@ -740,8 +740,8 @@ def acos_asin(z, prec, rnd, n):
         im = mpf_neg(im)
     if bsign and n == 1:
         im = mpf_neg(im)
-    re = normalize(re[0], re[1], re[2], re[3], prec, rnd)
-    im = normalize(im[0], im[1], im[2], im[3], prec, rnd)
+    re = mpf_pos(re, prec, rnd)
+    im = mpf_pos(im, prec, rnd)
     return re, im
 
 def mpc_acos(z, prec, rnd=round_fast):
